@@ -803,7 +803,17 @@ func (ctx *RenderContext) EvaluateExpression(node Node) (interface{}, error) {
 		// We can't use pooling with defer here because the map is returned directly
 		result := make(map[string]interface{}, len(n.items))
 
-		for k, v := range n.items {
+		// Evaluate in source order (a later duplicate key wins); nodes built without
+		// order information fall back to the map
+		keys := n.order
+		if len(keys) != len(n.items) {
+			keys = keys[:0:0]
+			for k := range n.items {
+				keys = append(keys, k)
+			}
+		}
+		for _, k := range keys {
+			v := n.items[k]
 			// Evaluate the key
 			keyVal, err := ctx.EvaluateExpression(k)
 			if err != nil {
